@@ -345,10 +345,13 @@ def op_svd(B, l, npc, force_fallback=False):
         state = {'n': 0}
 
         def flaky(a, full_matrices=True, compute_uv=True, overwrite_a=False, check_finite=True, lapack_driver='gesdd'):
+            # a non-converging gesdd: the real LAPACK call runs with exactly the arguments tenpy gave (so it uses the
+            # input as workspace iff tenpy allowed that) and then reports failure like scipy does for info > 0
+            res = orig(a, full_matrices, compute_uv, overwrite_a, check_finite, lapack_driver)
             if lapack_driver == 'gesdd':
                 state['n'] += 1
                 raise np.linalg.LinAlgError('SVD did not converge (interposed)')
-            return orig(a, full_matrices, compute_uv, overwrite_a, check_finite, lapack_driver)
+            return res
         scipy.linalg.svd = flaky
         try:
             out = npc.svd(A, **kw)
